@@ -8,6 +8,9 @@ CHECKS = {
  "C02": dict(level="exploration", technique="property-based testing (proptest): metamorphic oracle f(f(x)) == f(x) on grammar-generated documents",
    text="Generated search with a purely metamorphic oracle (second formatting pass returns the first byte-for-byte; third pass checked to tell convergence from oscillation) through three doors and both extension settings.",
    note="No parser in the verdict; the scanner only classifies failures. Same known-finding policy as C01.", ref="7/C02"),
+ "C04": dict(level="exploration", technique="property-based testing (proptest): generated edit histories (vec of ops + interpreter + model), differential oracle incremental instance vs. instance rebuilt from the model texts after every step",
+   text="Histories of didChange/didSave/new-file operations with semantic edit operators (drop title, drop last block, empty, append, table in front of a block) over generated libraries; after every step a canonical observation dump (library API or LSP answers) of the incremental instance must equal that of a fresh instance.",
+   note="Arena ids are mapped to (note, line, text). Reference locations are compared as multisets (hash-set order).", ref="7/C04"),
  "C05": dict(level="exploration", technique="property-based testing (proptest): generated libraries over directory layouts, reference model of backlinks from an independent scan and own path algebra, set equality both directions",
    text="Generated libraries (1-6 notes, root and nested directories, every link spelling and position); the expected backlink sets (note, line of linking block) come from an independent scan; compared as sets with the block and inline reference queries.",
    note="Trusted: pulldown-cmark, the harness's 15-line path algebra. LF only (C13 owns CRLF).", ref="7/C05"),
